@@ -12,7 +12,6 @@ import (
 	"encoding/binary"
 	"fmt"
 	"runtime"
-	"runtime/debug"
 	"strings"
 	"time"
 
@@ -110,8 +109,9 @@ func cases(thorough bool) [][]string {
 // most bound-1, at least 1) and reports violations on r. Returns executions and scheduling points seen.
 func Explore(r *ev.Run, bound int, thorough bool) (execs int) {
 	oldP := runtime.GOMAXPROCS(1) // one P: a per-P cache in the code under test is shared by all threads, deterministically
-	oldGC := debug.SetGCPercent(-1)
-	defer func() { runtime.GOMAXPROCS(oldP); debug.SetGCPercent(oldGC) }()
+	// the collector stays on (an exploration allocates for hours otherwise); a pooled object survives one
+	// collection in the pool's victim cache, so back-to-back Put/Get pairs of one execution still meet
+	defer runtime.GOMAXPROCS(oldP)
 	maxPoints := 0
 	for _, c := range cases(thorough) {
 		c := c
@@ -133,7 +133,7 @@ func Explore(r *ev.Run, bound int, thorough bool) (execs int) {
 		if len(c) > 2 && b > 1 {
 			b--
 		}
-		n := vsched.Explore(mkBodies, b, func(e *vsched.Exec) {
+		n, complete := vsched.ExploreBudget(mkBodies, b, 400000, func(e *vsched.Exec) {
 			if len(e.Points) > maxPoints {
 				maxPoints = len(e.Points)
 			}
@@ -160,7 +160,10 @@ func Explore(r *ev.Run, bound int, thorough bool) (execs int) {
 			}
 		})
 		execs += n
-		r.Sample(map[string]interface{}{"concurrent_calls": strings.Join(c, " || "), "preemption_bound": b, "schedules": n})
+		if !complete {
+			r.Cap(fmt.Sprintf("concurrent callers %s: preemption bound %d not finished within 400000 schedules", strings.Join(c, " || "), b))
+		}
+		r.Sample(map[string]interface{}{"concurrent_calls": strings.Join(c, " || "), "preemption_bound": b, "schedules": n, "complete": complete})
 	}
 	r.Set("concurrent_caller_schedules", execs)
 	r.Set("concurrent_caller_max_scheduling_points", maxPoints)
